@@ -253,6 +253,14 @@ func VHarnessWalletMintThenSend() {
 	_ = sent
 }
 
+var vhMeltTransportFaults = false
+
+// the same with a transport fault on the melt request (request or response lost), then a state check and a retry
+func VHarnessWalletMeltLost() {
+	vhMeltTransportFaults = true
+	VHarnessWalletMelt()
+}
+
 // Melt with each outcome, then a state check after the mint settled the payment either way (C17, C08, C19)
 func VHarnessWalletMelt() {
 	ppkA := uint(v.PickU64(v.U64("ppk.active"), 0, 1000))
@@ -273,12 +281,37 @@ func VHarnessWalletMelt() {
 	reserve := uint64(v.Int("melt.reserve", 0, 1))
 	env.db.SaveMeltQuote(storage.MeltQuote{QuoteId: "mq1", Mint: env.mint.URL, Method: "bolt11", State: nut05.Unpaid, Unit: "sat", PaymentRequest: "lnbc-mq1", Amount: amount, FeeReserve: reserve})
 	outcome := v.Int("melt.outcome", 0, 2)
-	env.mint.MeltQ["mq1"] = &vhMeltQuote{Amount: amount, FeeReserve: reserve, State: nut05.Unpaid, Outcome: outcome}
+	lose := 0
+	if vhMeltTransportFaults {
+		lose = v.Int("melt.lose", 0, 2)
+	}
+	env.mint.MeltQ["mq1"] = &vhMeltQuote{Amount: amount, FeeReserve: reserve, State: nut05.Unpaid, Outcome: outcome, Lose: lose}
 	l := env.snapshot()
 	resp, err := env.w.Melt("mq1")
 	if err != nil {
 		v.Reach("melt-error")
 		env.checkConservation(l, "melt refused")
+		if lose != 0 {
+			// the request or its answer was lost on the way: the wallet cannot know the outcome; the next state check reconciles
+			q := env.mint.MeltQ["mq1"]
+			_, cerr := env.w.CheckMeltQuoteState("mq1")
+			v.Assert(cerr == nil, "C17 melt: state check after a lost melt request / response succeeds")
+			env.checkConservation(l, "lost melt reconciled")
+			if q.State != nut05.Pending {
+				v.Assert(len(env.db.pending) == 0, "C17 melt: once the mint reports the melt whose request or answer was lost as paid or unpaid, nothing stays pending")
+			}
+			if q.State == nut05.Unpaid {
+				// the quote is still unpaid: the wallet can pay it again, and ends up with nothing stuck in pending
+				q.Outcome = 0
+				_, rerr := env.w.Melt("mq1")
+				if rerr == nil {
+					env.checkConservation(l, "lost melt retried")
+					v.Assert(len(env.db.pending) == 0, "C17 melt: after the retried melt was paid nothing stays pending")
+					v.Reach("lost-melt-retried")
+				}
+			}
+			v.Reach("lost-melt-reconciled")
+		}
 		return
 	}
 	v.Reach(fmt.Sprintf("melt-outcome-%d", outcome))
